@@ -840,6 +840,16 @@ def stepLine (st : LSt) (toks : List String) : LSt × List String :=
       if s.pool.ps * s.pool.bs ≤ 8388608 ∧ !s.pendingOrder then (st, ["xring err ENOBUFS"])
       else (st, ["bad-op"])
     | none => (st, ["bad-op"])
+  | ["pool", "resv"] =>
+    -- A release parked between writing its ring entry and storing the tail (second ring, two
+    -- buffers, both handed out: the entry goes into slot 0, whose `resv` field is the tail word):
+    -- nothing is published yet, so a kernel that selects buffers now finds the ring empty — the
+    -- entry write must leave the tail word as it is (fix: `resv` of slot 0 carries the tail).
+    match st with
+    | some s =>
+      if s.pool.ps * s.pool.bs ≤ 8388608 ∧ !s.pendingOrder then (st, ["resv parked=1 selected=-"])
+      else (st, ["bad-op"])
+    | none => (st, ["bad-op"])
   | ["pool", "lone"] =>
     -- A `ReadBuf` that outlives every handle of its (second-ring, two-buffer) pool: `release` still
     -- gives its buffer back (`Shared` lives as long as the `ReadBuf`: read_buf.rs:318-334), so the
